@@ -77,6 +77,25 @@ CHECKS = {
         design="7/C20",
         technique=E2,
     ),
+    "C07": dict(
+        text="With torch.randn*/rand* replaced by their contract (fresh independent symbols), the real forward() of AWGN, Laplacian and nonlinear channels is executed on symbolic real/complex inputs and a symbolic noise power: result - x is affine in the draws with no constant term, each output element uses its own symbols, and the sum of squared coefficients times the symbol variance equals the configured power (real: one term; complex: real + imaginary parts) resp. signal power / 10^(snr/10); supplied noise is added verbatim; the Laplacian transform's law is summarised by quadrature of the extracted expression; every SNR conversion/measurement function satisfies the textbook formula (pow10/log10 axiomatised). Proved for all inputs/draws per shape (<= 4 elements) and dtype.",
+        note="Assumed: i.i.d. unit-variance symmetric law of torch.randn, uniform law of torch.rand; moment lemma. SNR values on a concrete grid (the code calls float() on them). Bounded: same-seed scaling, float behaviour of the conversions on a dense grid.",
+        design="7/C07",
+        technique=E2 + "; RNG replaced by its contract; coefficient algebra + moment lemma",
+    ),
+    "C13": dict(
+        text="Real FlatFadingChannel: with supplied csi/noise y == h.x + n exactly and shape preserved (1-D, 2-D, 4-D); block expansion: coefficient of x[b,i] is the symbol of block i // T for all L in 1..7 x T in 1..L+1; distinct blocks/batch items use disjoint RNG symbols; second moments by the moment calculus: Rayleigh E|h|^2 = 1, Rician |LOS|^2 = K/(K+1), scattered 1/(K+1), ratio K (symbolic K >= 0); noise stage calibrated relative to mean|h.x|^2 - discharged for all inputs and draws per shape.",
+        note="Assumed: RNG laws; log-normal fading: structure only. Shapes are small and enumerated.",
+        design="7/C13",
+        technique=E2 + "; RNG replaced by its contract; coefficient algebra + moment lemma",
+    ),
+    "C18": dict(
+        text="BinaryPolynomial degree/__mul__/__mod__/div/gcd/lcm/__eq__/__hash__: verification conditions generated from the real source (ast) with sidecar loop invariants, ghost quotients / Bezout cofactors and the axiomatised GF(2)[x] theory on UNBOUNDED integers, all discharged by z3: a = q.b + r with deg r < deg b, gcd divides both and is a combination, lcm.gcd = product. FiniteBifield/FiniteBifieldElement __call__, __add__, __mul__, __pow__, inverse, trace, conjugates per m (all elements, all exponents). Per field m = 1..16 (ground, with the real operations): modulus has degree m, is irreducible (trial division), x has order exactly 2^m - 1 (so the quotient ring is a field: L-field), Fermat for all elements. minimal_polynomial/evaluate/derivative: bounded cross-checks against an independent bitmask implementation.",
+        note="Trusted: vk.e1 AST translation (differentially checked against the real functions on exhaustive small inputs every run), GF2POLY axioms (instance-tested on all bitmasks < 2^8, consistency probe), lemmas L-euclid/L-field/L-order. Precondition: polynomial values are non-negative ints.",
+        design="7/C18",
+        technique="contract-based VC generation from the real AST (loop invariants, ghost state, axiomatised GF(2)[x] theory over unbounded ints) discharged by z3; ground per-field obligations",
+        engine="vk-E1-vcgen",
+    ),
 }
 
 NOT_YET = {}
